@@ -261,7 +261,17 @@ def _symbolic_for(interp, s, frame, state, space):
     where = f"{frame.fname}:{s.lineno}"
     key = (frame.fname, "for", _loop_ordinal(frame, s))
     # zero-trip: split on hi <= lo unless decided
-    nonempty = interp.decide(sv.cmp(">", hi, lo))
+    merged, zero_fork = False, None
+    try:
+        nonempty = interp.decide(sv.cmp(">", hi, lo))
+    except Fork as f:
+        # zero-trip not decided.  The closed forms below (sums, accumulations, scatter stores, file positions) also
+        # describe the empty loop (they reduce to the pre-state for hi <= lo), so the loop is summarised without a
+        # case split when every effect has such a form; variables that only have a last-iteration value become
+        # unbound markers (any later use is `unsupported`, never a wrong value).  Otherwise the split is taken.
+        if s.orelse or not getattr(interp, "merge_zero_trip", True):
+            raise
+        merged, zero_fork, nonempty = True, f, True
     if not nonempty:
         if s.orelse:
             interp.exec_body_single(s.orelse, frame)
@@ -325,6 +335,7 @@ def _symbolic_for(interp, s, frame, state, space):
     heap_h = dict(pre_heap)
     arr_h = {}
     other_touched = []
+    file_h = {}
     for sid in touched:
         c = pre_heap[sid]
         if c.kind == "arr":
@@ -335,6 +346,12 @@ def _symbolic_for(interp, s, frame, state, space):
             arr_h[sid] = (shape, dt, fn)
         else:
             other_touched.append(sid)
+            if c.kind == "file":
+                # abstract read position of an open file handle: loop-carried integer
+                hp = sv.fresh_int(f"hpos{sid}_")
+                heap_h[sid] = Content("file", dict(c.data, pos=hp), c.meta)
+                file_h[sid] = hp
+                hv_consts.add(hp.t.get_id())
     # names of havoc functions
     for sid, (shape, dt, fn) in arr_h.items():
         probe = fn(tuple(sv.fresh_int("p") for _ in shape)) if shape else fn(())
@@ -353,6 +370,17 @@ def _symbolic_for(interp, s, frame, state, space):
     iz = i.t
     summary_env = {}
     summary_heap = {}
+    # ---- derived induction variables: a file position advancing by a loop-invariant amount has the closed form
+    #      pos(i) = pos0 + delta (i - lo); it is substituted into the other effects before they are analysed
+    #      (the closed forms are checked by the same init/step obligations)
+    resolved = []
+    for sid, hp in file_h.items():
+        postp = st1.heap[sid].data.get("pos")
+        d = sv.sub(postp, hp)
+        dts = [z3.simplify(t) for t in _terms_of(d)]
+        if not any(_contains_any(t, hv_consts, hv_funcs) or _mentions(t, iz) for t in dts):
+            closed = sv.add(pre_heap[sid].data["pos"], sv.mul(d, sv.sub(i, lo)))
+            resolved.append((hp.t, sv.znum(closed)))
     # ---- scalars
     for name in modified:
         if name in target_names:
@@ -360,6 +388,8 @@ def _symbolic_for(interp, s, frame, state, space):
         post = fr1.env.get(name, _MISSING)
         if post is _MISSING:
             continue
+        if resolved and sv.is_scalar(norm(post)):
+            post = _subst_val(post, resolved)
         pre = pre_env.get(name, _MISSING)
         summary_env[name] = _summarise_value(interp, name, pre, post, env_h.get(name, _MISSING), iz, lo, hi, hv_consts, hv_funcs, st1)
     # the loop target keeps its last value
@@ -375,10 +405,14 @@ def _symbolic_for(interp, s, frame, state, space):
         idx = tuple(sv.fresh_int("x") for _ in shape)
         post_fn = st1.heap[sid].data
         postv = post_fn(idx)
+        if resolved:
+            postv = _subst_val(postv, resolved)
         prev = hfn(idx)
         summary_heap[sid] = _summarise_array(sid, shape, dt, idx, prev, postv, iz, lo, hi, hv_consts, hv_funcs, pre_heap)
     for sid in other_touched:
-        summary_heap[sid] = _summarise_cell(interp, sid, pre_heap[sid], heap_h, st1, iz, lo, hi, hv_consts, hv_funcs)
+        if merged and pre_heap[sid].kind != "file":
+            raise zero_fork
+        summary_heap[sid] = _summarise_cell(interp, sid, pre_heap[sid], heap_h, st1, iz, lo, hi, hv_consts, hv_funcs, guarded=merged)
     # ---- build state(k) and check init / step
     def state_at(k):
         env = dict(pre_env)
@@ -424,6 +458,11 @@ def _symbolic_for(interp, s, frame, state, space):
         else:
             goals.extend(_cell_eq_goals(st2.heap[sid], heap_n[sid]))
     assum = st2.all_assumptions()
+    import os
+    if os.environ.get("PYVC_DEBUG_LOOPS"):
+        print("LOOP-DEBUG step goals at", where)
+        for g in goals:
+            print("   ", z3.simplify(g))
     if goals:
         st.side.append(_SideGoal("loop-step", z3.And(*goals) if len(goals) > 1 else goals[0], assum, where))
     # init check: state(lo) == pre-state
@@ -452,17 +491,34 @@ def _symbolic_for(interp, s, frame, state, space):
     for name, summ in summary_env.items():
         if summ[0] in ("last", "last_obj"):
             frame.env[name] = _instantiate(summ, hi, iz, lo, None)
+    if merged:
+        for name, summ in summary_env.items():
+            if summ[0] == "last":
+                pre = pre_env.get(name, _MISSING)
+                if pre is not _MISSING and sv.is_scalar(norm(pre)) and sv.is_scalar(norm(frame.env[name])):
+                    frame.env[name] = ite(sv.cmp(">", hi, lo), frame.env[name], pre)
+                else:
+                    frame.env[name] = UnboundAfterLoop(name, where)
+            elif summ[0] != "sum":
+                frame.env[name] = UnboundAfterLoop(name, where)
     for sid, c in heap_f.items():
         if sid in summary_heap:
             st.heap[sid] = c
             st.events.append(("store", sid, where, list(st.pc)))
     # new allocations made by the last iteration that remain referenced by last-value variables
-    _import_last_iteration_cells(fr1, st1, st, iz, hi, summary_env, frame)
+    if not merged:
+        _import_last_iteration_cells(fr1, st1, st, iz, hi, summary_env, frame)
     if s.orelse:
         interp.exec_body_single(s.orelse, frame)
 
 
 _MISSING = object()
+
+
+class UnboundAfterLoop:
+    """value of a variable that is only assigned inside a loop whose zero-trip case was not split off"""
+    def __init__(self, name, where):
+        self.name, self.where = name, where
 
 
 def _loop_ordinal(frame, s):
@@ -583,25 +639,62 @@ def _summarise_array(sid, shape, dt, idx, prev, postv, iz, lo, hi, hv_consts, hv
                 return sv.add(pre_fn(ix), Sum(lo, k, lambda t: _subst_val(delta, pairs + [(iz, sv.znum(t))])))
             return Content("arr", A._memo(fn), meta)
         return at
-    # (2) scatter store: post = ite(cond(i, idx), e(i, idx), prev) with cond selecting idx_k == g_k(i) on some axes
-    dec = _decompose_store(postv, prev)
+    # (2) conditional effects: post = ite(cond(i, idx), x(i, idx), prev)
+    dec = _decompose_store(_subst_val(postv, []), prev)
     if dec is not None:
-        cond, val = dec   # z3 bool cond(i, idx), value (SV/Cx) not mentioning havoc
-        vts = _terms_of(val) + [cond]
-        if not any(_contains_any(t, hv_consts, hv_funcs) for t in vts):
-            sol = _solve_writer(cond, iz, idz)
-            if sol is not None:
-                w, residual = sol   # writer iteration as a term over idx; residual condition over idx (with i:=w)
+        cond, val = dec   # z3 bool cond(i, idx), value (SV/Cx)
+        if not _contains_any(cond, hv_consts, hv_funcs):
+            # the old content at the stored position, written with the index equalities of cond (A[n, i] += v reads A[n, i])
+            eqs = _index_equalities(cond, idz)
+            prev_at = _subst_val(prev, eqs) if eqs else prev
+            # (2a) conditional accumulation: x - prev free of loop-carried state
+            dlt = sv.sub(val, prev_at)
+            dts = [z3.simplify(t) for t in _terms_of(dlt)]
+            if any(_contains_any(t, hv_consts, hv_funcs) for t in dts):
+                dlt = sv.sub(val, prev)
+                dts = [z3.simplify(t) for t in _terms_of(dlt)]
+            if not any(_contains_any(t, hv_consts, hv_funcs) for t in dts):
+                dlt = _subst_val(dlt, [])
+                cond_has_i = _mentions(cond, iz)
 
                 def at(k):
                     def fn(ix, k=k):
                         pairs = [(a, sv.znum(b)) for a, b in zip(idz, ix)]
-                        wk = z3.simplify(z3.substitute(w, *pairs))
-                        c = z3.And(wk >= sv.znum(lo), wk < sv.znum(k), z3.substitute(residual, *pairs))
-                        v = _subst_val(_subst_val(val, [(iz, w)]), pairs)
-                        return ite(sv.wrap(z3.simplify(c)), v, lambda: pre_fn(ix))
+                        if cond_has_i:
+                            return sv.add(pre_fn(ix), Sum(lo, k, lambda t: ite(sv.wrap(z3.simplify(z3.substitute(cond, *(pairs + [(iz, sv.znum(t))])))),
+                                                                                   lambda: _subst_val(dlt, pairs + [(iz, sv.znum(t))]), 0)))
+                        c = sv.wrap(z3.simplify(z3.substitute(cond, *pairs))) if pairs else sv.wrap(z3.simplify(cond))
+                        return ite(c, lambda: sv.add(pre_fn(ix), Sum(lo, k, lambda t: _subst_val(dlt, pairs + [(iz, sv.znum(t))]))), lambda: pre_fn(ix))
                     return Content("arr", A._memo(fn), meta)
                 return at
+            # (2b) scatter store / scatter update: every position is written by at most one iteration w(idx) (affine writer);
+            #      the stored value may use the old content of the same position
+            pts = _terms_of(prev_at)
+            holes = [z3.Const(sv.fresh_name("old"), t.sort()) for t in pts]
+            val_p = _subst_val(val, list(zip(pts, holes)) + list(zip(_terms_of(prev), holes))) if pts else val
+            vts = _terms_of(val_p)
+            if not any(_contains_any(t, hv_consts, hv_funcs) for t in vts):
+                sol = _solve_writer(cond, iz, idz)
+                if sol is not None:
+                    w, residual = sol   # writer iteration as a term over idx; residual condition over idx (with i:=w)
+
+                    def at(k):
+                        def fn(ix, k=k):
+                            pairs = [(a, sv.znum(b)) for a, b in zip(idz, ix)]
+                            wk = z3.simplify(z3.substitute(w, *pairs))
+                            c = z3.And(wk >= sv.znum(lo), wk < sv.znum(k), z3.substitute(residual, *pairs))
+
+                            def newv():
+                                v = _subst_val(_subst_val(val_p, [(iz, w)]), pairs)
+                                if holes:
+                                    v = _subst_val(v, list(zip(holes, _terms_of(pre_fn(ix)))))
+                                return v
+                            return ite(sv.wrap(z3.simplify(c)), newv, lambda: pre_fn(ix))
+                        return Content("arr", A._memo(fn), meta)
+                    return at
+    import os
+    if os.environ.get("PYVC_DEBUG_LOOPS"):
+        print("LOOP-DEBUG post:", _subst_val(postv, []), "\n  prev:", prev, "\n  iz:", iz)
     raise EngineError(f"array #{sid}: loop effect is neither an accumulation nor an affine scatter store — needs a written summary")
 
 
@@ -628,6 +721,29 @@ def _decompose_store(postv, prev):
         if x.eq(prev.t):
             return z3.Not(c), sv.wrap(y)
     return None
+
+
+def _index_equalities(cond, idz):
+    """conjuncts idx_k == term of cond -> [(idx_k, term)]"""
+    conj = []
+
+    def flat(c):
+        if z3.is_and(c):
+            for ch in c.children():
+                flat(ch)
+        else:
+            conj.append(c)
+    flat(z3.simplify(cond))
+    ids = {x.get_id(): x for x in idz}
+    out = []
+    for c in conj:
+        if z3.is_eq(c):
+            a, b = c.children()
+            if a.get_id() in ids and not any(_mentions(b, x) for x in idz):
+                out.append((a, b))
+            elif b.get_id() in ids and not any(_mentions(a, x) for x in idz):
+                out.append((b, a))
+    return out
 
 
 def _solve_writer(cond, iz, idz):
@@ -673,7 +789,7 @@ def _mentions(t, c):
     return False
 
 
-def _summarise_cell(interp, sid, pre_cell, heap_h, st1, iz, lo, hi, hv_consts, hv_funcs):
+def _summarise_cell(interp, sid, pre_cell, heap_h, st1, iz, lo, hi, hv_consts, hv_funcs, guarded=False):
     """non-array heap cells touched by the body: python lists (append), dataframes (column updates), objects"""
     post_cell = st1.heap[sid]
     if pre_cell.kind == "list":
@@ -707,6 +823,21 @@ def _summarise_cell(interp, sid, pre_cell, heap_h, st1, iz, lo, hi, hv_consts, h
                     return Content("list", A.SeqVal(length, fn), pre_cell.meta)
                 return at
         raise EngineError("list mutated in a symbolic loop in an unsupported way")
+    if pre_cell.kind == "file":
+        hp = heap_h[sid].data["pos"]
+        d = sv.sub(post_cell.data["pos"], hp)
+        dts = [z3.simplify(t) for t in _terms_of(d)]
+        if any(_contains_any(t, hv_consts, hv_funcs) for t in dts):
+            raise EngineError("file position in a symbolic loop: not an accumulation")
+        d = _subst_val(d, [])
+        const = not any(_mentions(t, iz) for t in _terms_of(d))
+
+        def at(k, d=d):
+            # every instantiation of the loop rule has k >= lo
+            cnt = sv.sub(k, lo) if not guarded else ite(sv.cmp(">", k, lo), sv.sub(k, lo), 0)
+            adv = sv.mul(d, cnt) if const else Sum(lo, k, lambda t: _subst_val(d, [(iz, sv.znum(t))]))
+            return Content("file", dict(pre_cell.data, pos=A.simp(sv.add(pre_cell.data["pos"], adv))), pre_cell.meta)
+        return at
     if pre_cell.kind == "df":
         from .pandas_model import summarise_df_cell
         return summarise_df_cell(interp, sid, pre_cell, post_cell, heap_h, st1, iz, lo, hi, hv_consts, hv_funcs)
@@ -727,6 +858,8 @@ def _cell_eq_goals(a, b):
             for g in _eq_goals(fa(p), fb(p)):
                 goals.append(z3.Implies(rng, g))
         return goals
+    if a.kind == "file" and b.kind == "file":
+        return _eq_goals(a.data["pos"], b.data["pos"])
     if a.kind == "df" and b.kind == "df":
         from .pandas_model import df_cell_eq_goals
         return df_cell_eq_goals(a, b, _eq_goals)
